@@ -684,13 +684,28 @@ INTEGER_decode_uper(const asn_codec_ctx_t *opt_codec_ctx,
 	/* #12.2.3 */
 	if(ct && ct->lower_bound) {
 		/*
-		 * TODO: replace by in-place arithmetics.
+		 * The octets hold a non-negative offset from the lower bound
+		 * (they were prefixed with a zero octet above).
 		 */
-		long value = 0;
-		if(asn_INTEGER2long(st, &value))
+		unsigned long offset = 0;
+		if(asn_INTEGER2ulong(st, &offset))
 			ASN__DECODE_FAILED;
-		if(asn_imax2INTEGER(st, value + ct->lower_bound))
-			ASN__DECODE_FAILED;
+		if(specs && specs->field_unsigned) {
+			unsigned long lb = (unsigned long)ct->lower_bound;
+			if(offset > ULONG_MAX - lb)
+				ASN__DECODE_FAILED;
+			if(asn_ulong2INTEGER(st, offset + lb))
+				ASN__DECODE_FAILED;
+		} else {
+			/* Room between the lower bound and LONG_MAX */
+			unsigned long room = (unsigned long)LONG_MAX
+				- (unsigned long)ct->lower_bound;
+			if(offset > room)
+				ASN__DECODE_FAILED;
+			if(asn_long2INTEGER(st,
+				(long)(offset + (unsigned long)ct->lower_bound)))
+				ASN__DECODE_FAILED;
+		}
 	}
 
 	return rval;
